@@ -10,7 +10,7 @@ from penman.tree import Tree
 
 from pv.gen import graphs, models, trees
 from pv.harness import Hyp
-from pv.props.common import fmt, short, tree_classes
+from pv.props.common import fmt, noise_calls, short, tree_classes
 from pv.ref import graphm, interp
 from pv.ref.role import build_model, roles_for
 
@@ -99,6 +99,8 @@ def check(case):
     m = build_model(spec)
     R = roles_for(spec)
     keyname = case['key']
+    if case['k'] != 'built':
+        noise_calls(m, interp.to_node(case['tree']))
     key = _model_key(m, keyname)
     if keyname == 'random':
         random.seed(case.get('rseed', 0))
@@ -188,7 +190,7 @@ def classes(case):
     return out
 
 
-WIDE_ROLES = [':op1', ':op2', ':op9', ':op10', ':op11', ':ARG0', ':ARG1', ':ARG2', ':x2y9', ':x2y10', ':mod', ':domain', ':name', ':']
+WIDE_ROLES = [':consist-of', ':prep-on-behalf-of', ':prep-out-of', ':op100', ':op20', ':op1', ':op2', ':op9', ':op10', ':op11', ':ARG0', ':ARG1', ':ARG2', ':x2y9', ':x2y10', ':mod', ':domain', ':name', ':']
 
 
 @st.composite
